@@ -775,12 +775,24 @@ OBLIGATIONS = [
      "statement": "client: feeding any segmentation through the carried loop state (headerScanPos, ChunkState) = framing the whole stream (resumption: the carried state is a function of the accumulated bytes)"},
     {"id": "C15_F2", "theorem": "Iora.C15.F2_segmentation_independent", "kind": "proved",
      "statement": "client: two segmentations of one stream (then peer close) give the same response / framing error / closed-early outcome"},
+    {"id": "C15_F4a", "theorem": "Iora.C15.F4_content_length_sound", "kind": "proved",
+     "statement": "client: a Content-Length value is accepted only if every comma element is 1*DIGIT < 2^64 and all are equal"},
+    {"id": "C15_F4b", "theorem": "Iora.C15.F4_framing_sound", "kind": "proved",
+     "statement": "client: Content-Length framing is chosen only without Transfer-Encoding, with a valid value within the cap"},
+    {"id": "C15_F4c", "theorem": "Iora.C15.F4_cl_and_te_rejected", "kind": "proved",
+     "statement": "client: Content-Length together with Transfer-Encoding is a framing error"},
+    {"id": "C15_F4d", "theorem": "Iora.C15.F4_chunk_size_sound", "kind": "proved",
+     "statement": "client: an accepted chunk size is within the cap and below 2^64 (overflow / over-cap / junk / bare LF are malformed)"},
     {"id": "C15_F3a", "theorem": "Iora.C15.F3_buffer_bounded", "kind": "proved",
      "statement": "client: buffer <= cap whenever the loop continues, <= cap + read size always"},
     {"id": "C15_F3b", "theorem": "Iora.C15.F3_chunk_loop_progress", "kind": "proved",
      "statement": "client: every continuing iteration of the chunk loop strictly advances pos (termination measure)"},
     {"id": "C15_F3c", "theorem": "Iora.C15.F3_frame_never_grows", "kind": "proved",
      "statement": "client: frameResponse never grows the buffer (interim erasure only shrinks)"},
+    {"id": "C15_S1", "theorem": "Iora.C15.S1_extract_exact", "kind": "proved",
+     "statement": "server exactness (S1/S4/S5): a well-formed request (CL / body-less / chunked with extensions+trailers) is cut exactly at its end and handed over as header section + DECODED body"},
+    {"id": "C15_S1p", "theorem": "Iora.C15.S1_pipeline_exact", "kind": "proved",
+     "statement": "server: any segmentation of a pipeline of well-formed requests dispatches exactly those requests in order and leaves an empty buffer"},
     {"id": "C15_S2a", "theorem": "Iora.C15.S2_extractor_stable", "kind": "proved",
      "statement": "server: the request extractor is extension-stable for ARBITRARY buffers (CL, body-less and chunked requests, and every close decision)"},
     {"id": "C15_S2", "theorem": "Iora.C15.S2_segmentation_independent", "kind": "proved",
@@ -834,7 +846,7 @@ def run(ctx: Ctx):
     if ok_build:
         ctx.audit(MODULES, OBLIGATIONS)
         if not quick:
-            ctx.leanchecker(MODULES + ["IoraModel.Lemmas.HttpCommon", "IoraModel.Lemmas.HttpClient", "IoraModel.Lemmas.HttpServer", "IoraModel.Lemmas.HttpExact", "IoraModel.Model.Http1Spec",
+            ctx.leanchecker(MODULES + ["IoraModel.Lemmas.HttpCommon", "IoraModel.Lemmas.HttpClient", "IoraModel.Lemmas.HttpServer", "IoraModel.Lemmas.HttpExact", "IoraModel.Lemmas.HttpServerExact", "IoraModel.Model.Http1Spec",
                                        "IoraModel.Model.HttpClientFraming", "IoraModel.Model.HttpServerFraming", "IoraModel.Model.HttpCommon",
                                        "IoraModel.Common.Framing"])
     else:
@@ -877,7 +889,11 @@ def run(ctx: Ctx):
         ctx.extra["segmentations_compared"] = segs_compared
     ctx.extra["input_distribution"] = dist
     ctx.extra["repo_tree_sha"] = ctx.repo_tree_sha(ANCHOR_FILES)
-    ctx.extra["not_proved"] = []
+    ctx.extra["not_proved"] = [
+        "server: HttpRequest::fromWireFormat maps the extracted bytes to (method, target, header map, body) exactly - the parser is modelled (Model/HttpServerFraming.lean) "
+        "and validated by lockstep + the S1 monitor against the generator's independent encoder, but has no Lean exactness theorem yet (S1 is proved up to the bytes handed to the parser)",
+        "client F2 is stated for streams that fit the cap (no prefix trips the cap check); with interim 1xx responses and a total above the cap the cap check is segmentation-dependent by design (erased interims no longer count)",
+        "wall-clock bound per framing call is measured by the 2 s watchdog, termination itself is a theorem (total functions with strictly decreasing measures)"]
     ctx.assumptions += ["the receive loop of executeRequest is replicated in the harness (8 lines: append, cap check, frameResponse, PeerClosed arm); its shape is pinned by the translator",
                         "server: requests are dispatched to a pool of which all workers but one are parked, so handlers run in dispatch order (response ordering is C16)",
                         "the scripted engine records close()/send calls; the harness erases the session after a close as the engine's close callback would"]
